@@ -13,13 +13,14 @@ LEVEL = "fault_enumeration"
 RULE = ("for each case (generated multi-input dependency graphs with DataFrame and CSV inputs, scalar results, with and "
         "without output_folder (csv/parquet), in-memory and file-backed database) every DB call boundary k=1..N of the clean "
         "run is a fault point (fault kinds duckdb.Error / OSError / Exception), plus natural faults (missing file, malformed "
-        "cell in the j-th input, duplicate keys, zero divisor in statement j, output folder that is a file); 1-3 consecutive "
+        "cell in the j-th input, duplicate keys, zero divisor in statement j, output folder that is a file, configuration "
+        "variables holding unusable values, eval() external routines that fail in five ways); 1-3 consecutive "
         "failing runs are followed by a clean run. Oracle after each failing run: run() raised; temp directory listing empty; "
-        "captured connection refuses 'select 1'; no /proc/self/fd target inside the temp directory; the next clean run equals "
+        "captured connection refuses 'select 1'; every other connection handed out by duckdb.connect during the call (census "
+        "wrapper) is closed; no /proc/self/fd target inside the temp directory; the next clean run equals "
         "the clean baseline. Bucket = (stage of the failing call, fault kind, db mode, output mode, position in the failing "
         "sequence); one evaluation = one fault point.")
-ASSUMPTIONS = ["failures while *configuring* the connection (before the session exists) are outside the statement",
-               "fault points are the Python-visible DB calls (execute/sql/register/unregister/table); faults inside DuckDB "
+ASSUMPTIONS = ["fault points are the Python-visible DB calls (execute/sql/register/unregister/table); faults inside DuckDB "
                "between two such calls are represented by the natural faults only"]
 FLOORS = {"quick": (600, 40), "thorough": (15000, 80)}
 REQUIRED_COUNTERS = {"faults_fired": 500, "conn_probes": 500, "clean_followups": 100}
